@@ -189,6 +189,99 @@ def rule_roles_lr(rep):
         )
 
 
+def _first_link_carrier(r, f):
+    """_do_reductions walks the reduction paths backwards with a work list of tuples.  Returns
+    the name of the local that is, for every path separately, the link taken first (the last
+    RHS symbol); checks that nothing a work item carries is made to depend on a *sibling* link."""
+    loop = next((n for n in walk_no_nested(f.node) if isinstance(n, ast.While) and unparse(n.test) == "to_process"), None)
+    r.need(loop is not None, "_do_reductions: work-list loop not found")
+    unpack = loop.body[0]
+    r.need(
+        isinstance(unpack, ast.Assign) and isinstance(unpack.targets[0], ast.Tuple)
+        and unparse(unpack.value) == "to_process.pop()",
+        "_do_reductions: work item is not unpacked from to_process.pop()",
+    )
+    item = [e.id for e in unpack.targets[0].elts]
+    sib = next((n for n in loop.body if isinstance(n, ast.For) and isinstance(n.target, ast.Name)), None)
+    r.need(sib is not None, "_do_reductions: loop over the links of a node not found")
+    link = sib.target.id
+    init = next(
+        (st.value for st in walk_no_nested(f.node)
+         if isinstance(st, ast.Assign) and is_name(st.targets[0], "to_process") and isinstance(st.value, ast.List)),
+        None,
+    )
+    r.need(init is not None and len(init.elts) == 1 and isinstance(init.elts[0], ast.Tuple)
+           and len(init.elts[0].elts) == len(item), "_do_reductions: initial work item not found")
+    pushes = [
+        c.args[0] for c in walk_no_nested(sib) if isinstance(c, ast.Call) and unparse(c.func) == "to_process.append"
+        and c.args and isinstance(c.args[0], ast.Tuple)
+    ]
+    r.need(len(pushes) == 1 and len(pushes[0].elts) == len(item), "_do_reductions: work-list push not found")
+    # (a) what a work item carries must not be changed by one sibling for the next
+    for st in walk_no_nested(sib):
+        tg = []
+        if isinstance(st, ast.Assign):
+            tg = [t for t in st.targets if isinstance(t, ast.Name)]
+        elif isinstance(st, ast.AugAssign) and isinstance(st.target, ast.Name):
+            tg = [st.target]
+        for t in tg:
+            if t.id in item:
+                dep = link in {n.id for n in ast.walk(st.value) if isinstance(n, ast.Name)}
+                r.check(
+                    not dep,
+                    f"work-item variable `{t.id}` is not made to depend on one of the sibling links",
+                    f"GLR reduction:sibling-carried:{t.id}",
+                    f"`{unparse(st)[:80]}` inside the loop over the links of a node changes `{t.id}`, which "
+                    "belongs to the work item, from the current link: the next sibling link (another reduction "
+                    "path) continues with the value of this one (e.g. the end position of the first path)",
+                    node=st,
+                )
+    # (b) the carrier of the first link
+    cand = None
+    for st in sib.body:
+        if isinstance(st, ast.Assign) and isinstance(st.targets[0], ast.Name) and isinstance(st.value, ast.IfExp):
+            v = st.value
+            t = unparse(v.test)
+            for c in item:
+                if (t in (f"{c} is None", f"{c} == None") and is_name(v.body, link) and is_name(v.orelse, c)) or \
+                        (t in (f"{c} is not None", f"{c} != None") and is_name(v.body, c) and is_name(v.orelse, link)):
+                    cand = (st.targets[0].id, c)
+    for st in sib.body:
+        # statement form:  if C is None: X = link  else: X = C
+        if (
+            isinstance(st, ast.If) and len(st.body) == 1 and len(st.orelse) == 1
+            and all(isinstance(x, ast.Assign) and isinstance(x.targets[0], ast.Name) for x in (st.body[0], st.orelse[0]))
+            and st.body[0].targets[0].id == st.orelse[0].targets[0].id
+        ):
+            t = unparse(st.test)
+            a, b = st.body[0].value, st.orelse[0].value
+            for c in item:
+                if (t in (f"{c} is None", f"{c} == None") and is_name(a, link) and is_name(b, c)) or \
+                        (t in (f"{c} is not None", f"{c} != None") and is_name(a, c) and is_name(b, link)):
+                    if st.body[0].targets[0].id not in item:
+                        cand = (st.body[0].targets[0].id, c)
+    if cand is None:
+        r.violation(
+            "GLR reduction:first-link",
+            "_do_reductions no longer computes, per path, the first link taken from the reducing head "
+            "(`X = <link> if <carried> is None else <carried>`): the end position of a reduction cannot be "
+            "that of its last right-hand-side symbol",
+            node=sib,
+        )
+        return "<first link of the path>"
+    name, carried = cand
+    k = item.index(carried)
+    r.check(
+        isinstance(init.elts[0].elts[k], ast.Constant) and init.elts[0].elts[k].value is None and is_name(pushes[0].elts[k], name),
+        "the first link of a path is carried along that path only (initially None)",
+        "GLR reduction:first-link-carried",
+        f"the work item no longer carries the path's first link: slot {k} starts as "
+        f"`{unparse(init.elts[0].elts[k])}` and is pushed as `{unparse(pushes[0].elts[k])}`",
+        node=pushes[0],
+    )
+    return name
+
+
 def rule_roles_glr(rep):
     with rep.rule(
         "R08.roles-glr",
@@ -258,6 +351,7 @@ def rule_roles_glr(rep):
         calls = [c for c in walk_no_nested(f.node) if isinstance(c, ast.Call) and is_self_attr(c.func, "_reduce")]
         r.need(len(calls) == 2, f"_do_reductions: expected 2 _reduce call sites, found {len(calls)}")
         rparams = tgt.params[1:]
+        first_link = _first_link_carrier(r, f)
         for c in calls:
             a = {k: unparse(e) for k, e in _args(c, rparams).items()}
             if a.get("root_head") == "head":
@@ -270,7 +364,7 @@ def rule_roles_glr(rep):
                 _check_roles(r, "GLR reduction", c, a, {
                     "head": ("head",), "root_head": ("parent.root",), "production": ("production",),
                     "node_nonterm": ("NodeNonTerm(None, new_results, production=production)",),
-                    "start_position": ("parent.start_position",), "end_position": ("last_parent.end_position",),
+                    "start_position": ("parent.start_position",), "end_position": (f"{first_link}.end_position",),
                 })
         txt = unparse(f.node)
         r.check(
